@@ -524,6 +524,8 @@ class _Translator(object):
                 return sym.Len(args[0])
             if isinstance(f, SpecFn):
                 return f(*args)
+            if isinstance(f, z3.FuncDeclRef):
+                return SInt(f(*[_ie(a) for a in args]))
             if f in (min, max) and any(sym.is_sym(a) for a in args):
                 a, b = args
                 c = (a <= b) if f is min else (a >= b)
@@ -559,3 +561,11 @@ def lemma_obligations():
             hyps, goal = fn.lemma_obligation()
             out.append((fn.name, hyps, goal))
     return out
+
+
+@spec(lemma=lambda r, n: r >= 1)
+def p2(n: int) -> int:
+    """2**n for n >= 0 (1 for n <= 0)"""
+    if n <= 0:
+        return 1
+    return 2 * p2(n - 1)
